@@ -187,6 +187,14 @@ def rule_sibling(ctx: Ctx):
                           f"{name}: {who[0]} `{a_side}` vs {who[1]} `{o_side}`",
                           only_async=len(only_a), only_sync=len(only_s), common_prefix=src[max(0, i - 3):i])
         rep.floor("C05.sibling", f"traces of {name}", min(len(ts), len(ta)), 2)
+    rule_wrapper(ctx)
+    # executors: both held to the same all-of / filtered-collect specification
+    c01.rule_allof(ctx, rule="C05.sibling")
+    c14.rule_collect(ctx, rule="C05.sibling")
+
+
+def rule_wrapper(ctx: Ctx, rule: str = "C05.sibling"):
+    rep = ctx.rep
     # wrapper twins
     wc, wa = ctx.fn("CallbackWrapper.call"), ctx.fn("CallbackWrapper.__call__")
     ts = set()
@@ -195,11 +203,8 @@ def rule_sibling(ctx: Ctx):
     ta = set()
     for p in ctx.paths(wa, exc_edges="none"):
         ta.add("\n".join(_wrapper_canon(p)))
-    rep.check(ts == ta, "C05.sibling", wa.loc(), "CallbackWrapper.__call__ equals CallbackWrapper.call once awaitable results are awaited",
+    rep.check(ts == ta, rule, wa.loc(), "CallbackWrapper.__call__ equals CallbackWrapper.call once awaitable results are awaited",
               wa.key, "wrapper twins differ: " + " | ".join(sorted(ta ^ ts))[:300])
-    # executors: both held to the same all-of / filtered-collect specification
-    c01.rule_allof(ctx, rule="C05.sibling")
-    c14.rule_collect(ctx, rule="C05.sibling")
 
 
 def _wrapper_canon(p: Path) -> List[str]:
@@ -317,7 +322,7 @@ def rule_flag(ctx: Ctx):
     rep.check(got is not None and "is_coroutine" in got and "callback" in got, "C05.flag", wi.loc(),
               "the wrapper's coroutine flag is read from the adapted callable", wi.key, f"self._iscoro = {got}")
     aos = ctx.fn("CallbacksRegistry.async_or_sync")
-    for p in ctx.paths(aos, exc_edges="none"):
+    for p in ctx.paths(aos, exc_edges="none", comps_for_loops=True):
         st = [e for e in p.of("store") if e.x.get("attr") == "has_async_callbacks"]
         v = xshow(st[0].x["value"], p.events) if st else ""
         vt = expand(st[0].x["value"], p.events) if st else None
